@@ -143,72 +143,88 @@ def _offset(sl: ast.AST, axis_len: list[str]) -> int | None:
 
 
 def rule_Z3(ctx: Ctx) -> None:
-    """symbolic straight-line walk of _remove_isolated_cells (loops over constant offset tables unrolled, temporaries substituted):
-    the mask that is painted WALL is  ~wall & shifted(wall, each 4-neighbour offset)  on the one-pixel padded wall mask"""
-    from sa import dtable as DT
+    """_remove_isolated_cells by abstract evaluation over colour-symbol images: every 3x3 image over {WALL, OPEN} (512), plus
+    images with START / END / PATH pixels; a pixel becomes WALL iff it is not a wall and its four 4-neighbours (the outside counts
+    as wall) are all wall; every other pixel keeps its colour; the argument is not modified"""
+    import itertools
+
+    from sa.absnp import MODELS, Arr
+    from sa.fold import EvalRaised, Evaluator, Obj, Unknown
 
     f = ctx.index.func(f"{LM}._remove_isolated_cells")
-    img = f.params()[0]
-    rows = DT.table(f.node, {}, module_consts=f.module.assigns)
-    row = rows[0]
-    exp_w = "walls = pixels equal to WALL; the mask is padded by one wall pixel on every side"
-    if row["outcome"][0] == "unknown":
-        ctx.unknown(f, {"why": row["outcome"][1]}, exp_w)
+    img_p = f.params()[0]
+    pc = ctx.index.cls(f"{LM}.PixelColors")
+    rgb = {}
+    for k_, v_ in pc.fields.items():
+        try:
+            rgb[k_] = tuple(Evaluator().ev(v_.value, {}))
+        except Exception:
+            pass
+    for k_, v_ in pc.assigns.items():
+        try:
+            rgb.setdefault(k_, tuple(Evaluator().ev(v_, {})))
+        except Exception:
+            pass
+    if not {"WALL", "OPEN", "START", "END", "PATH"} <= set(rgb):
+        ctx.unknown(f, {"colours_found": sorted(rgb)}, "PixelColors declares WALL, OPEN, START, END, PATH as RGB triples")
         return
-    stores = [e for e in row["effects"] if e[0] == "store" and e[2] == "PixelColors.WALL"]
-    if len(stores) != 1:
-        ctx.judge(f, False if not stores else None, {"stores_of_WALL": [e[1][:80] for e in stores]}, "exactly one masked store paints pixels WALL")
-        return
-    tgt = ast.parse(stores[0][1], mode="eval").body
-    base_ok = isinstance(tgt, ast.Subscript) and X.same_expr(tgt.value, f"{img}.copy()")
-    mask = tgt.slice if isinstance(tgt, ast.Subscript) else None
-    terms: list[ast.AST] = []
+    colours = Obj("PixelColors", {k: list(v) for k, v in rgb.items()})
 
-    def flat(e):
-        if isinstance(e, ast.BinOp) and isinstance(e.op, ast.BitAnd):
-            flat(e.left)
-            flat(e.right)
-        elif isinstance(e, ast.Call) and dotted_of(e.func) in ("np.logical_and", "numpy.logical_and") and len(e.args) == 2:
-            flat(e.args[0])
-            flat(e.args[1])
-        else:
-            terms.append(e)
-    if mask is not None:
-        flat(mask)
-    wall = f"np.all({img} == PixelColors.WALL, axis=-1)"
-    wall_alt = f"({img} == PixelColors.WALL).all(axis=-1)"
-    offs, other, nonwall = [], [], 0
-    pads_ok = True
-    for t in terms:
-        if isinstance(t, ast.UnaryOp) and isinstance(t.op, ast.Invert) and X.same_expr(t.operand, wall, wall_alt):
-            nonwall += 1
-        elif isinstance(t, ast.Call) and dotted_of(t.func) in ("np.logical_not", "numpy.logical_not") and len(t.args) == 1 and X.same_expr(t.args[0], wall, wall_alt):
-            nonwall += 1
-        elif isinstance(t, ast.Subscript) and isinstance(t.value, ast.Call) and dotted_of(t.value.func) in ("np.pad", "numpy.pad"):
-            pc = t.value
-            pw = pc.args[1] if len(pc.args) > 1 else N.kwarg(pc, "pad_width")
-            cv = N.kwarg(pc, "constant_values")
-            if not (pc.args and X.same_expr(pc.args[0], wall, wall_alt) and pw is not None and X.U(pw).replace(" ", "") in ("((1,1),(1,1))", "1", "(1,1)")
-                    and isinstance(cv, ast.Constant) and cv.value is True):
-                pads_ok = False
-            p = N.subscript_parts(t)
-            n_rows = [f"len({wall})", f"len({wall_alt})", f"{wall}.shape[0]", f"{wall_alt}.shape[0]", f"len({img})", f"{img}.shape[0]"]
-            n_cols = [f"{wall}.shape[1]", f"{wall_alt}.shape[1]", f"{img}.shape[1]"]
-            o = (_offset(p[0], n_rows), _offset(p[1], n_cols)) if len(p) == 2 else None
-            if o is None or None in o:
-                other.append(X.U(t)[-60:])
-            else:
-                offs.append(o)
-        else:
-            other.append(X.U(t)[:60])
-    ctx.judge(f, pads_ok and bool(offs), {"conjuncts": len(terms), "padded_views": len(offs)}, exp_w)
-    ctx.judge(f, (not other) and sorted(offs) == sorted([(0, 1), (0, -1), (1, 0), (-1, 0)]), {"neighbour_offsets": sorted(offs), "other_conjuncts": other[:3]},
-              "a pixel is isolated iff its four 4-neighbours (0,+-1), (+-1,0) are all wall",
-              "diagonal or missing neighbours: cells with an open neighbour are walled up, or isolated ones kept")
-    ret_ok = row["outcome"][0] == "return" and X.same_expr(row["outcome"][1], f"{img}.copy()")
-    ctx.judge(f, nonwall >= 1 and base_ok and ret_ok, {"non_wall_conjuncts": nonwall, "painted": X.U(tgt.value)[:60] if isinstance(tgt, ast.Subscript) else None,
-                                                       "returns": DT.outcome_str(row["outcome"])[:80]},
-              "only non-wall pixels change, they become WALL, and the result is a copy (the argument is not modified)")
+    def hook(ev, node, env):
+        d = dotted_of(node.func) or ""
+        if d in MODELS:
+            args = [ev.ev(a, env) for a in node.args]
+            kw = {k.arg: ev.ev(k.value, env) for k in node.keywords if k.arg}
+            try:
+                return MODELS[d](*args, **kw)
+            except (ValueError, IndexError) as e:
+                raise EvalRaised(type(e).__name__, str(e))
+            except Exception as e:
+                raise Unknown(f"model of {d}: {e}")
+        return NotImplemented
+
+    def name_hook(name, env):
+        if name == "PixelColors":
+            return colours
+        if name in f.module.assigns:
+            return Evaluator({"__call__": hook, "__name__": name_hook}).ev(f.module.assigns[name], {})
+        raise Unknown(f"free name `{name}`")
+
+    def expected(img):
+        h, w = len(img), len(img[0])
+        out = [list(r) for r in img]
+        for i in range(h):
+            for j in range(w):
+                if img[i][j] == "WALL":
+                    continue
+                nb = [(i, j + 1), (i, j - 1), (i + 1, j), (i - 1, j)]
+                if all(not (0 <= a < h and 0 <= b < w) or img[a][b] == "WALL" for a, b in nb):
+                    out[i][j] = "WALL"
+        return out
+    images = [[list(bits[0:3]), list(bits[3:6]), list(bits[6:9])] for bits in itertools.product(("WALL", "OPEN"), repeat=9)]
+    images += [[["WALL", "WALL", "WALL"], ["WALL", c, "WALL"], ["WALL", "WALL", "WALL"]] for c in ("START", "END", "PATH")]
+    images += [[["START", "END", "WALL"], ["WALL", "WALL", "PATH"]], [["OPEN"]], [["WALL", "OPEN", "WALL", "OPEN"]], [["OPEN", "WALL"], ["WALL", "OPEN"], ["OPEN", "OPEN"]]]
+    bad, unk = [], []
+    for img in images:
+        arg = Arr([[list(rgb[c]) for c in r] for r in img])
+        before = [[list(rgb[c]) for c in r] for r in img]
+        back = {tuple(v): k for k, v in rgb.items()}
+        try:
+            got = Evaluator({"__call__": hook, "__name__": name_hook}).run_body(X.body_wo_doc(f.node), {img_p: arg})
+            gd = [[back.get(tuple(px), px) if isinstance(px, list) else px for px in r] for r in got.data] if isinstance(got, Arr) else got
+        except EvalRaised as e:
+            gd = f"raises {e.exc_name}"
+        except Unknown as e:
+            unk.append(str(e)[:140])
+            break
+        if gd != expected(img) and len(bad) < 3:
+            bad.append({"image": img, "found": gd, "expected": expected(img)})
+        if arg.data != before and len(bad) < 3:
+            bad.append({"image": img, "argument_after_the_call": arg.data, "expected": "unchanged (the result is a copy)"})
+    ctx.judge(f, False if bad else None if unk else True, {"abstract_images": len(images), "deviations": bad[:2], "undecided": unk[:1]},
+              "a pixel is isolated iff it is not a wall and its four 4-neighbours (0,+-1), (+-1,0) are all wall (the outside counts as wall); isolated pixels become WALL, "
+              "every other pixel keeps its colour, and the result is a copy (the argument is not modified)",
+              "diagonal or missing neighbours: cells with an open neighbour are walled up, or isolated ones kept; or the caller's image is modified")
 
 
 def rule_Z4(ctx: Ctx) -> None:
@@ -289,7 +305,7 @@ def rule_Z5(ctx: Ctx) -> None:
 RULES = [
     Rule("C17.Z1", rule_Z1, floor=5, doc="colour maps"),
     Rule("C17.Z2", rule_Z2, floor=3, doc="no aliasing"),
-    Rule("C17.Z3", rule_Z3, floor=3, doc="isolated-cell neighbourhood"),
+    Rule("C17.Z3", rule_Z3, floor=1, doc="isolated-cell neighbourhood"),
     Rule("C17.Z4", rule_Z4, floor=1, doc="pixel extension"),
     Rule("C17.Z5", rule_Z5, floor=6, doc="post-processing, item and batch plumbing"),
 ]
